@@ -229,6 +229,8 @@ def replay_concrete(ob, wd, vals, want_desc):
 
 def do_obligation(pid, ob, tier, keep):
     name = ob["name"]
+    if os.environ.get("VERIF_TIMEOUT_CAP"):   # development: cap every job's timeout while probing
+        ob = dict(ob); ob["timeout"] = min(ob.get("timeout", 600), int(os.environ["VERIF_TIMEOUT_CAP"]))
     wd = os.path.join(WORK, pid, re.sub(r"[^A-Za-z0-9_.-]", "_", name))
     shutil.rmtree(wd, ignore_errors=True); os.makedirs(wd)
     rec = dict(name=name, desc=ob.get("desc", ""), harness=ob["harness"], entry=ob["entry"], unwind=ob.get("unwind"),
@@ -316,7 +318,9 @@ def do_obligation(pid, ob, tier, keep):
                                               replay=os.path.relpath(rp, VERIF), replayed=rep["replay"]))
         elif wit_total == 0 or wit_ok < wit_total:
             rec["verdict"] = "VACUOUS"
-        elif rec.get("other"):
+        elif rec.get("other") and not (kf_hit and exp_fail):
+            # (cbmc reports the remaining checks on a path behind a FAILED built-in pointer check as UNKNOWN; for an
+            #  obligation that is expected to fail exactly there -- expect_fail matched -- that is not an error)
             rec["verdict"] = "ERROR"; rec["error"] = "; ".join(rec["other"])
         else:
             rec["verdict"] = "SUCCESS"
